@@ -168,6 +168,8 @@ type fnTrans struct {
 	allowedDone   bool
 	seqFacts      []Term
 	curUses       []Term
+	loopHeadSt    map[int]*State
+	lockSites     map[string][2]string // (lock-mode variable, object) pairs this function locks or unlocks
 	spawned       map[string]*FuncContract // contracts of the functions started with `go` in this function
 	cellFn        map[string]cellFnRec // local cells that hold a statically known closure (assigned exactly once)
 }
@@ -1154,6 +1156,8 @@ func (t *fnTrans) pass() {
 	t.callSeq = 0
 	t.cellFn = nil
 	t.spawned = nil
+	t.lockSites = nil
+	t.loopHeadSt = nil
 	t.allowedDone, t.allowed, t.allowedAll = false, nil, false
 	t.S.decls, t.S.declared, t.S.axioms = nil, map[string]bool{}, nil
 	t.S.strLits, t.S.strOrder = map[string]string{}, nil
@@ -1409,6 +1413,17 @@ func (t *fnTrans) loopEdge(b *ssa.BasicBlock, si int, li *loopInfo, back bool) {
 		}
 	}
 	if back {
+		// every iteration leaves the lock modes as it found them (locks taken in the body are released in the body)
+		if hs := t.loopHeadSt[li.header.Index]; hs != nil {
+			for _, k := range sortedKeys(t.lockSites) {
+				ls := t.lockSites[k]
+				cur, was := t.get(t.cur, ls[0]), t.get(hs, ls[0])
+				if cur != was {
+					t.oblige("lockdisc", fmt.Sprintf("loop%d.balance.%s", li.ordinal, strings.TrimPrefix(ls[0], "LK_")), "an iteration releases the locks it takes ("+strings.TrimPrefix(ls[0], "LK_")+")",
+						fmt.Sprintf("(=> %s (= (select %s %s) (select %s %s)))", cond, cur, ls[1], was, ls[1]), b.Instrs[len(b.Instrs)-1].Pos())
+				}
+			}
+		}
 		h := li.header.Index
 		for _, name := range sortedKeys(t.vars) {
 			if t.loopMod[h][name] || (t.loopModAll[h] && t.vars[name].Heap) {
@@ -1497,6 +1512,9 @@ func (t *fnTrans) loopHead(li *loopInfo) {
 		if sv == nil {
 			continue
 		}
+		if sv.Kind == "lockmode" {
+			continue // lock modes are loop-invariant by obligation (checked on every back edge below), never havocked
+		}
 		if mods[name] || (all && (sv.Heap || sv.Kind == "ghost")) || (all && name == "alloc") {
 			nv := fmt.Sprintf("%s_h%d", name, h)
 			t.declare(nv, sv.Sort)
@@ -1532,6 +1550,10 @@ func (t *fnTrans) loopHead(li *loopInfo) {
 			t.assume(t.wf(t.vals[phi].T, phi.Type()))
 		}
 	}
+	if t.loopHeadSt == nil {
+		t.loopHeadSt = map[int]*State{}
+	}
+	t.loopHeadSt[h] = t.cur.clone()
 	if li.spec != nil {
 		env := t.localEnv(t.cur, li.header)
 		for _, c := range li.spec.Invariants {
